@@ -6,6 +6,6 @@ export CARGO_NET_OFFLINE=true
 unset RUSTC_WRAPPER
 mkdir -p "$ROOT/target" "$ROOT/evidence"
 cd "$ROOT/harness"
-for pkg in vcheck chk_srv chk_cli; do
+for pkg in vcheck chk_srv chk_cli chk_store; do
   cargo build --profile verif -p "$pkg" 2>&1 | tail -2
 done
